@@ -66,3 +66,59 @@ class Comment(models.Model):
 
     class Meta:
         app_label = "djapp"
+
+
+# ---- schema for the C12 / C08 translation checks (no data needed)
+class Other2(models.Model):
+    c = models.IntegerField(null=True)
+
+    class Meta:
+        app_label = "djapp"
+
+
+class Other(models.Model):
+    p = models.IntegerField(null=True)
+    name = models.CharField(max_length=40, null=True)
+    b = models.ForeignKey(Other2, null=True, on_delete=models.CASCADE, related_name="+")
+
+    class Meta:
+        app_label = "djapp"
+
+
+class Thing(models.Model):
+    n = models.IntegerField(null=True)
+    f = models.FloatField(null=True)
+    s = models.CharField(max_length=40, null=True)
+    b = models.BooleanField(null=True)
+    d = models.DateTimeField(null=True)
+    dd = models.DateField(null=True)
+    tt = models.TimeField(null=True)
+    du = models.DurationField(null=True)
+    gid = models.UUIDField(null=True)
+    g = models.CharField(max_length=80, null=True)
+    l = models.CharField(max_length=80, null=True)
+    a = models.ForeignKey(Other, null=True, on_delete=models.CASCADE, related_name="things")
+
+    class Meta:
+        app_label = "djapp"
+
+
+class Child(models.Model):
+    # the same scalar columns as Thing: inside a lambda body the ORMs resolve fields on the child model
+    n = models.IntegerField(null=True)
+    f = models.FloatField(null=True)
+    s = models.CharField(max_length=40, null=True)
+    b = models.BooleanField(null=True)
+    d = models.DateTimeField(null=True)
+    dd = models.DateField(null=True)
+    tt = models.TimeField(null=True)
+    du = models.DurationField(null=True)
+    gid = models.UUIDField(null=True)
+    g = models.CharField(max_length=80, null=True)
+    l = models.CharField(max_length=80, null=True)
+    a = models.ForeignKey(Other, null=True, on_delete=models.CASCADE, related_name="+")
+    thing = models.ForeignKey(Thing, null=True, on_delete=models.CASCADE, related_name="cs")
+    other = models.ForeignKey(Other, null=True, on_delete=models.CASCADE, related_name="cs")
+
+    class Meta:
+        app_label = "djapp"
